@@ -25,13 +25,20 @@ JOBS = max(2, min(10, NPROC - 4))
 TLC_JOBS = 4
 STATE_CHUNK = 40            # FsckN lines with a state per TLC process
 
-QUICK_N = int(os.environ.get("C02_QUICK_N", "400"))
-QUICK_PAIRS = int(os.environ.get("C02_QUICK_PAIRS", "40"))
+QUICK_N = int(os.environ.get("C02_QUICK_N", "270"))
+QUICK_PAIRS = int(os.environ.get("C02_QUICK_PAIRS", "24"))
 # thorough: every bindable single with the checksum recomputed, every pair, and one stale-checksum recipe in STALE_EVERY
 STALE_EVERY = 6
 # thorough: recipes that e2fsck flags hold trivially; their state is projected (for the evidence: how many of the
 # inconsistent states e2fsck flags, reader/e2fsck agreement) for one in FLAGGED_EVERY
 FLAGGED_EVERY = 8
+
+
+# binding demonstration, recorded when the check was built (bin/selftest --patch <fixes + mutant> C02; not re-measured by a normal run)
+SELFTEST = {"recorded": "2026-09-28", "tree": "/repo a9b77b7d + fixes/C02_pass0_declined_exit.patch + fixes/C02_extent_node_depth.patch",
+            "mutants/C02_extent_dup_unrecorded.patch": "CAUGHT (closed triple file_small.ee_start.alias_other + bitmap + group count: exit 0 with SingleOwner false)",
+            "mutants/C02_filetype_ge.patch": "CAUGHT (dirblk_root.dlast_file_type.wrong: exit 0 with Links false)",
+            "design mutants of Fsck.tla": "MutNoDupCheck violates InvC02, MutPass5NotWritten violates InvC01 (checked by every run)"}
 
 
 def load_own_findings(vd, pid=PID):
@@ -179,7 +186,7 @@ _EVAL = re.compile(r'<<\s*"EVAL",\s*(\d+),\s*(-?\d+),\s*(-?\d+),\s*(\d),\s*(<<[^
 
 def tlc_lines(lines, work, tag, chunk, timeout=900):
     """validate independent lines with Trace_Tools; -> dict(bad=[idx], undecided=[idx], evals={idx: (unknown, failed)}, claims, distinct, generated)"""
-    # Trace_Tools.cfg = repaired behaviour (fixes/C02_pass0_verdict.patch applied); VERIF_C02_LITERAL=1 validates against the
+    # Trace_Tools.cfg = repaired behaviour (fixes/C02_pass0_declined_exit.patch applied); VERIF_C02_LITERAL=1 validates against the
     # literal behaviour of the tree before that fix (named deviation DevPass0VerdictForgotten enabled -> KNOWN-FINDING)
     mod = os.path.join(SPEC, "Trace_Tools.tla")
     cfg = os.path.join(SPEC, "Trace_Tools_literal.cfg" if os.environ.get("VERIF_C02_LITERAL") else "Trace_Tools.cfg")
@@ -434,6 +441,7 @@ def run(tier):
         ev.cov["rule"] = ("distinct_nontrivial = universe elements (profile, recipe) whose corrupted image violates at least one conjunct of "
                           "Ext4Abs!Consistent as evaluated by TLC (the corruption really broke an invariant); evaluations = lines whose projected state TLC evaluated")
         ev.cov["tlc_trace_runs"] = res_s["runs"] + res_n["runs"]
+        ev.cov["selftest"] = SELFTEST
         ev.assumptions += [
             "e2fsck is run as the suite runs it (tests/test_config environment: E2FSCK_CONFIG=/dev/null, fixed E2FSCK_TIME)",
             "the reader's byte-level findings (shape_err, csum_err, ...) are trusted as named facts; set-theoretic conjuncts are computed by TLC from raw facts; "
